@@ -53,6 +53,11 @@ func zzFinalizableTx(asset crypto.Hash, kind int) *common.VersionedTransaction {
 		o := scriptOut()
 		o.Amount = d.Amount
 		tx.Outputs = []*common.Output{o}
+	case 3: // withdrawal claim: the fee output, referencing a (stored, finalized) submit transaction
+		tx.Inputs = []*common.Input{{Hash: zzHash(), Index: 0}}
+		o := scriptOut()
+		o.Type = common.OutputTypeWithdrawalClaim
+		tx.Outputs = []*common.Output{o}
 	case 2:
 		tx.Inputs = []*common.Input{{Hash: zzHash(), Index: 0}}
 		sub := &common.Output{Type: common.OutputTypeWithdrawalSubmit, Amount: zzAmount2(), Withdrawal: &common.WithdrawalData{Address: "addr", Tag: "tag"}}
@@ -114,6 +119,17 @@ func zzFinSetup(kinds []int, allowPreFinalized bool) *zzFinEnv {
 		ver := zzFinalizableTx(e.asset, k)
 		if k == 1 {
 			ver.Inputs[0].Deposit.Chain = e.chain // the asset's own chain
+		}
+		if k == 3 {
+			kk := crypto.Key(zzHash())
+			sub := zzOwnerTx(&kk, 7)
+			if err := s.ZZPutTransaction(sub); err != nil {
+				panic(err)
+			}
+			fin := zzHash()
+			zzSet(s, graphFinalizationKey(sub.PayloadHash()), fin[:])
+			ver.References = []crypto.Hash{sub.PayloadHash()}
+			vr.Assume(sub.PayloadHash() != ver.PayloadHash() && sub.PayloadHash().HasValue()) // different transactions, different hashes
 		}
 		ft := &zzFinTx{ver: ver, hash: ver.PayloadHash(), kind: k}
 		for _, o := range e.txs {
@@ -242,7 +258,7 @@ func ZZ_C15() {
 
 // ZZ_C17: one finalization step keeps "recorded total = genesis + deposits + mints - withdrawal submissions".
 func ZZ_C17() {
-	kind := vr.Choose(0, 2)
+	kind := vr.Choose(0, 3)
 	e := zzFinSetup([]int{kind}, true)
 	s := e.s
 	ft := e.txs[0]
@@ -274,6 +290,9 @@ func ZZ_C17() {
 	_, now, rerr := s.ReadAssetWithBalance(e.asset)
 	vr.Assert(rerr == nil, "total-readable")
 	switch kind {
+	case 3:
+		vr.Cover("claim")
+		vr.Assert(now.Cmp(e.total) == 0, "withdrawal-claim-leaves-total-unchanged")
 	case 0:
 		vr.Cover("transfer")
 		vr.Assert(now.Cmp(e.total) == 0, "transfer-leaves-total-unchanged")
@@ -290,6 +309,10 @@ func ZZ_C17() {
 	sum := common.Zero
 	for _, u := range ft.ver.UnspentOutputs() {
 		_, ok := zzGet(s, graphUtxoKey(u.Hash, u.Index))
+		if !ok && vr.Replaying() {
+			back, _, rerr := s.ReadTransaction(ft.hash)
+			println("ZZ-NOTE missing utxo:", u.Hash.String(), u.Index, "stored tx hash:", back != nil && back.PayloadHash() == ft.hash, "rerr:", rerr != nil, "type:", int(u.Type))
+		}
 		vr.Assert(ok, "unspent-output-materialised")
 		sum = sum.Add(u.Amount)
 	}
